@@ -133,7 +133,7 @@ func (w *wis) deliverSome(tp *engine.Tape, k int) {
 }
 
 // checkpointFresh quiesces and compares every client with a fresh replica built from the current state.
-func (w *wis) checkpointFresh(class string, after string) {
+func (w *wis) checkpointFresh(class string, after string, tags string) {
 	if !w.quiesce(w.inst, w.clients) {
 		w.r.Inconclusive = "no quiescence at checkpoint " + after
 		w.r.Probe("no_quiescence")
@@ -155,7 +155,16 @@ func (w *wis) checkpointFresh(class string, after string) {
 		d := diffViews(got, fresh[c.name])
 		w.r.Probe("resources_compared")
 		if len(d) > 0 {
-			w.r.Fail(class, d[0].typ+":"+d[0].kind, "after %s: client %s differs from a fresh control plane:%s", after, c.name, fmtDiffs(d))
+			n := len(c.recvLog)
+			for i := max(0, n-8); i < n; i++ {
+				e := c.recvLog[i]
+				w.r.Logf("  %s recv[%d] step=%d %s nonce=%s names=%d accepted=%v", c.name, i, e.step, shortType(e.typeURL), e.nonce[:min(8, len(e.nonce))], len(e.names), e.accepted)
+			}
+			key := tags + "|" + d[0].typ + ":" + d[0].kind
+			if d[0].field != "" {
+				key += ":" + d[0].field
+			}
+			w.r.Fail(class, key, "after %s: client %s differs from a fresh control plane:%s", after, c.name, fmtDiffs(d))
 			return
 		}
 	}
@@ -205,7 +214,7 @@ func runC01(t *testing.T, r *engine.Run) {
 		w.gap(tp, db)
 		w.deliverSome(tp, tp.Choose(6, "ndeliver"))
 		if prefix || i == nmut-1 {
-			w.checkpointFresh("c01.not_converged", m.desc)
+			w.checkpointFresh("c01.not_converged", m.desc, wd.everTags())
 			if prefix {
 				// non-trivial: this change was skipped for some client or some subscribed root type
 				after := respCounts(w.clients)
@@ -220,7 +229,7 @@ func runC01(t *testing.T, r *engine.Run) {
 		}
 	}
 	if !prefix && !r.Failed() {
-		w.checkpointFresh("c01.not_converged", "end of history")
+		w.checkpointFresh("c01.not_converged", "end of history", wd.everTags())
 	}
 	for _, c := range w.clients {
 		w.cut(c)
